@@ -252,16 +252,10 @@ def rc4Ops (op : String) (args : List String) : Option (String × String) :=
 -- ---------------------------------------------------------------------------------------------
 -- index maps: model = what the code holds (Gen), spec = the position rule of the specifications
 namespace Idx
-
-/-- Salsa20 rowround: row r starts at its diagonal element, i.e. position 4r+c reads y[4r + (r+c) mod 4] -/
-def salsaRow : List Nat := (List.range 16).map fun p => 4 * (p / 4) + (p / 4 + p % 4) % 4
-/-- Salsa20 columnround = rowround on the transposed matrix -/
-def transpose : List Nat := (List.range 16).map fun p => 4 * (p % 4) + p / 4
-/-- ChaCha diagonal round: group r, element c reads x[4c + (r+c) mod 4] -/
-def chachaDiag : List Nat := (List.range 16).map fun p => 4 * (p % 4) + (p / 4 + p % 4) % 4
-/-- inverse of a permutation of 0..n-1 given as a list -/
-def inverse (l : List Nat) : List Nat := (List.range l.length).map fun x => l.idxOf x
-
+def salsaRow : List Nat := Spec.Salsa20.rowIndex
+def transpose : List Nat := Spec.Salsa20.transposeIndex
+def chachaDiag : List Nat := Spec.Chacha.diagIndex
+def inverse (l : List Nat) : List Nat := Spec.Salsa20.inverseIndex l
 end Idx
 
 def genMap (c : Cipher) (n : String) : Option (List Nat) :=
